@@ -2,6 +2,7 @@ import Logrange.Proofs.TruncateDry
 import Logrange.Proofs.TruncateWriter
 import Logrange.Proofs.TruncateDisk
 import Logrange.Proofs.TruncateUnsel
+import Logrange.Proofs.TruncateInUse
 import Logrange.Generated.C09
 /-!
 # C09 — Truncation removes only whole oldest chunks, within the requested bounds
@@ -17,11 +18,14 @@ open Logrange.Truncate
 def strict : Bool := Generated.C09.timeLoopStrict
 def gMin : Nat := Generated.C09.globalMinSrcSize
 def gMax : Nat := Generated.C09.globalMaxSrcSize
+/-- the accounting shape of the MAXDBSIZE pass as the code has it now (`false`: only when the partition was dropped,
+finding F77; `true`: whenever the inner truncate ran, the repair) — every theorem about `runNow` holds for both -/
+def acct : Bool := Generated.C09.globalAccountsWhenDropRefused
 
 /-- the chooser / the truncation of one partition / the command, as the code is now -/
 local notation "chooseNow" => choose strict
 local notation "truncateNow" => truncate strict
-local notation "runNow" => run strict gMin gMax
+local notation "runNow" => run acct strict gMin gMax
 
 /-- **The shape of the code the model mirrors** (regenerated from the source): strict `<` in the time loop, both
 loops re-check MINSIZE, the size loop is guarded by `Max > 0 && Max > Min`, deletion addresses `cks[idx-1]` and is
@@ -182,8 +186,8 @@ example :
 /-- **What the MAXDBSIZE pass guarantees**: every entry of the sorted list is either left alone or its partition is
 taken whole (`after = 0`, `deleted`), and the pass does nothing at all when the total is within MAXDBSIZE. -/
 theorem global_pass (p : Params) (infos : List Info) (ts : Nat) (db : List Part) :
-    Forall2 Taken infos (globalLoop strict gMin gMax p infos ts db).1 ∧
-    (ts ≤ p.maxDB → globalLoop strict gMin gMax p infos ts db = (infos, db)) :=
+    Forall2 Taken infos (globalLoop acct strict gMin gMax p infos ts db).1 ∧
+    (ts ≤ p.maxDB → globalLoop acct strict gMin gMax p infos ts db = (infos, db)) :=
   ⟨globalLoop_shape strict gMin gMax p infos ts db, globalLoop_idle strict gMin gMax p infos ts db⟩
 
 /-- **Size clause for the whole command, partial** (`MAXDBSIZE` absent or not exceeded after phase I): the command is
@@ -407,7 +411,7 @@ visited entry leaves with nothing left (`after = 0`: its partition is taken whol
 and every entry behind them is untouched. -/
 theorem global_pass_front (p : Params) (hd : p.dryRun = true) (order : List Part) (hnd : (order.map (·.src)).Nodup) :
     let I := (phase1 strict p order).infos
-    let res := (globalLoop strict gMin gMax p I (totalAfter I) (phase1 strict p order).db).1
+    let res := (globalLoop acct strict gMin gMax p I (totalAfter I) (phase1 strict p order).db).1
     let k := passLen p.maxDB I (totalAfter I)
     SortedInfos I ∧ (∀ x ∈ res.take k, x.after = 0) ∧ res.drop k = I.drop k := by
   intro I res k
@@ -593,9 +597,47 @@ partition 3's chunk, cannot drop it (`deleteJournal` refuses: in use), so it nei
 and drops partition 2: the report names partition 2 only, partition 3 is left empty without a word. -/
 theorem cex_in_use_divergence :
     let o : List Part := [⟨1, true, 0, [c 1 57 12]⟩, ⟨2, true, 0, [c 1 57 22]⟩, ⟨3, true, 1, [c 1 57 32]⟩]
-    (runNow { dryRun := true, maxDB := 114 } o).reports.map (·.src) = [3] ∧
-    (runNow { dryRun := false, maxDB := 114 } o).reports.map (·.src) = [2] ∧
-    (runNow { dryRun := false, maxDB := 114 } o).db = [⟨1, true, 0, [c 1 57 12]⟩, ⟨3, true, 1, []⟩] := by decide
+    (run false strict gMin gMax { dryRun := true, maxDB := 114 } o).reports.map (·.src) = [3] ∧
+    (run false strict gMin gMax { dryRun := false, maxDB := 114 } o).reports.map (·.src) = [2] ∧
+    (run false strict gMin gMax { dryRun := false, maxDB := 114 } o).db = [⟨1, true, 0, [c 1 57 12]⟩, ⟨3, true, 1, []⟩] := by decide
+
+/-- the repaired accounting (`proposed-fixes/F77.diff`, shape `acct = true`) on the same input: the run reports partition 3
+with the bytes and the chunk the dry run announced (only the deleted flag differs: it is in use and stays, empty), the
+total is reduced, and partition 2 is left alone -/
+theorem repaired_in_use_agreement :
+    let o : List Part := [⟨1, true, 0, [c 1 57 12]⟩, ⟨2, true, 0, [c 1 57 22]⟩, ⟨3, true, 1, [c 1 57 32]⟩]
+    (run true strict gMin gMax { dryRun := true, maxDB := 114 } o).reports.map (fun i => (i.src, i.before, i.after, i.chunksDeleted, i.deleted)) = [(3, 57, 0, 1, true)] ∧
+    (run true strict gMin gMax { dryRun := false, maxDB := 114 } o).reports.map (fun i => (i.src, i.before, i.after, i.chunksDeleted, i.deleted)) = [(3, 57, 0, 1, false)] ∧
+    (run true strict gMin gMax { dryRun := false, maxDB := 114 } o).db =
+      [⟨1, true, 0, [c 1 57 12]⟩, ⟨2, true, 0, [c 1 57 22]⟩, ⟨3, true, 1, []⟩] := by decide
+
+/-- **With the repaired accounting DRYRUN announces what the run removes whoever holds the partitions** (the positive
+statement for shape `acct = true`, `proposed-fixes/F77.diff`): the whole command, MAXDBSIZE pass included, every layout,
+every parameter combination, two arbitrary visiting orders, ANY holders — every report line of the dry run (partition, size
+before and after, chunk count) is a report line of the run up to the deleted flag (a partition somebody holds is emptied,
+not dropped), and vice versa. Hypotheses: distinct source ids, ascending chunk ids, `WellSized` (not used by the proof), and
+no selected partition that is empty AND in use (the dry run's `size = 0` branch announces a drop the run must refuse). -/
+theorem dryrun_equals_run_in_use_repaired (p : Params) (o1 o2 : List Part) (hp : o1.Perm o2)
+    (hnd : (o1.map (·.src)).Nodup)
+    (hq : ∀ q ∈ o1, Ascending q.chunks ∧ WellSized q ∧ (q.users ≠ 0 → q.sel = true → 0 < psize q.chunks)) :
+    ∀ r, r ∈ ((run true strict gMin gMax { p with dryRun := true } o1).reports.map unflag) ↔
+         r ∈ ((run true strict gMin gMax { p with dryRun := false } o2).reports.map unflag) := by
+  have h1 : gMin = 0 := by decide
+  have h2 : gMax = 1 := by decide
+  rw [h1, h2]
+  exact dryrun_equals_run_in_use strict p o1 o2 hp hnd hq
+
+/-- **the code as it is now is one of the two shapes**, and in the repaired shape the pass never leaves an entry it
+emptied unreported: every entry the pass visits (total above MAXDBSIZE, data left, partition found) leaves with
+`after = 0`, dropped or not -/
+theorem pass_accounts_by_shape (p : Params) (ti : Info) (rest : List Info) (ts : Nat) (db : List Part) (part : Part)
+    (h1 : p.maxDB < ts) (h2 : 0 < ti.after) (hf : dbFind db ti.src = some part) :
+    ((globalLoop true strict gMin gMax p (ti :: rest) ts db).1.head?.map (·.after)) = some 0 := by
+  unfold globalLoop
+  simp only [h1, h2, if_true, hf]
+  split
+  · rfl
+  · rfl
 
 /-! ## chunk objects that outlive their chunk (finding F56, journal library) -/
 
@@ -606,6 +648,22 @@ dereferences a closed wrapper. Reproduced deterministically (section trunc2race)
 theorem cex_overlapping_truncates :
     deleteArg strict { maxSrc := 120 } [c 1 100 5, c 2 100 9, c 3 100 12] [1, 2] = none ∧
     deleteArg strict { maxSrc := 120 } [c 1 100 5, c 2 100 9, c 3 100 12] [] = some 2 := by decide
+
+/-- the ids another TRUNCATE statement can have closed between this statement's snapshot and its `DeleteChunks`:
+none when `Service.Truncate` is serialised by a mutex (regenerated fact `truncateSerialized`, `proposed-fixes/F56.diff`) -/
+def overlapClosed (serialized : Bool) (other : List Nat) : List Nat := if serialized then [] else other
+
+/-- **statement vs statement, by code shape**: with the mutex no TRUNCATE dereferences a chunk object another TRUNCATE
+closed, whatever that one removed; without it the counterexample of F56 stands -/
+theorem overlapping_truncates_by_shape :
+    (∀ (p : Params) (snap : List Chunk) (other : List Nat), 0 < (chooseNow p snap).n →
+      (deleteArg strict p snap (overlapClosed true other)).isSome = true) ∧
+    deleteArg strict { maxSrc := 120 } [c 1 100 5, c 2 100 9, c 3 100 12] (overlapClosed false [1, 2]) = none ∧
+    (Generated.C09.truncateSerialized = true ∨ Generated.C09.truncateSerialized = false) := by
+  refine ⟨?_, by decide, by decide⟩
+  intro p snap other hn
+  unfold deleteArg derefId overlapClosed
+  simp
 
 /-- a statement whose snapshot was taken after every earlier removal completed never touches a closed chunk object:
 the snapshot then holds none of the closed ids (`Chunks()` excludes chunks marked for deletion) — serialising TRUNCATE
